@@ -87,7 +87,7 @@ def quiet(f, *a, **k):
 def call(f, *a, **k):
     try:
         return "ok", quiet(f, *a, **k)
-    except (ValueError, TypeError, ZeroDivisionError, IndexError, NotImplementedError) as ex:
+    except Exception as ex:  # noqa: BLE001 -- whatever the real code raises is an observation, not an infra error
         return type(ex).__name__, str(ex)[:200]
 
 
@@ -476,18 +476,18 @@ def oracle_equal_interval(c, a, st, out):
 
 # ---------------------------------------------------------------------------------------------- quantile
 class RecModule:
-    """stands in for `module` in classify._run_quantile and records the percentile call"""
-    arange = staticmethod(np.arange)
-    isfinite = staticmethod(np.isfinite)
-    unique = staticmethod(np.unique)
+    """stands in for `module` in classify._run_quantile (everything is numpy's) and records the percentile call"""
 
     def __init__(self):
         self.p = None
         self.q = None
 
-    def percentile(self, a, p):
+    def __getattr__(self, name):
+        return getattr(np, name)
+
+    def percentile(self, a, p, *args, **kw):
         self.p = np.array(p, dtype=np.float64)
-        self.q = np.percentile(a, p)
+        self.q = np.percentile(a, p, *args, **kw)
         return self.q
 
 
@@ -547,9 +547,13 @@ def oracle_quantile(c, a, rec, st, q, st2, out):
         hi = min(lo + 1, n - 1)
         ideal.append(fin[lo] + (hpos - lo) * (fin[hi] - fin[lo]))
     bins = sorted(set(ideal))
+    if not all(isfin(x) for x in np.asarray(q).ravel().tolist()):
+        return "bands", f"quantile k={k}: non-finite percentile break in {np.asarray(q).tolist()}"
     real_bins = [fr(x) for x in np.asarray(q).tolist()]
     scale = max(abs(fin[0]), abs(fin[-1]), 1)
     tol = Fraction(1, 10 ** 9) * scale
+    if any(x >= y for x, y in zip(real_bins, real_bins[1:])):
+        return "bands", f"quantile k={k}: the percentile breaks {[float(x) for x in real_bins]} are not strictly ascending (de-duplicated)"
     if len(real_bins) != len(bins):
         return None          # a percentile that differs from its neighbour by rounding only: bands not comparable
     for rb, ib in zip(real_bins, bins):
@@ -755,11 +759,15 @@ def compare_classes(r, stream, c, real, rep, a, tie_ok=False):
         # an equally good partition chosen through a float tie in the DP is not a disagreement
         flat = a.ravel().tolist()
 
+        sample = [fr(v) for v in nb_sample(a, c["num_sample"]).tolist()] if c["kind"] == "natural_breaks" \
+            else [fr(v) for v in flat if isfin(v)]
+
         def cost_of(cls):
+            # the DP optimises over the sample: cost of the partition the classes induce on the sample values
+            cmap = {fr(v): int(o) for v, o in zip(flat, cls) if isfin(v) and o == o}
             g = {}
-            for v, o in zip(flat, cls):
-                if isfin(v) and o == o:
-                    g.setdefault(int(o), []).append(fr(v))
+            for x in sample:
+                g.setdefault(cmap.get(x), []).append(x)
             return sum(ssd(x) for x in g.values())
         fin = [fr(v) for v in flat if isfin(v)]
         if all((x != x) == (y != y) for x, y in zip(res, m[1])) and abs(cost_of(res) - cost_of(m[1])) <= dp_tol(fin):
@@ -777,6 +785,15 @@ def fail_key(prefix, bad):
 
 def eval_case(r, c, drv_reply=None, stream=None):
     """runs the real code + oracle (+ model comparison when a driver reply is given); returns True when it fails"""
+    try:
+        return eval_case_(r, c, drv_reply, stream)
+    except Exception as ex:  # noqa: BLE001 -- an oracle that cannot digest the output: reported, never swallowed
+        import traceback
+        r.disagree("oracle-crash", c, repr(ex), traceback.format_exc()[-600:])
+        return False
+
+
+def eval_case_(r, c, drv_reply=None, stream=None):
     kind = c["kind"]
     if kind == "cpu_bin":
         return not check_bin_case(r, c, drv_reply, stream or "cpu_bin")
@@ -931,7 +948,7 @@ def check_facts(r, drv):
 
 def run(r, scale=1):
     drv = Driver()
-    n = {"quick": 3, "thorough": 24}[r.tier] * scale
+    n = {"quick": 3, "thorough": 48}[r.tier] * scale
     r.rule = ("_cpu_bin: exhaustive (all weakly ascending bin lists of length <= 8 over a small alphabet x all half-integer "
               "positions + NaN/inf, 5 dtype pairs) + random ascending/+-inf/unsorted/NaN bins; classifiers: rasters <= 4x5 on "
               "integer / half-integer / wide lattices, ties, NaN/+-inf cells, float32/float64/int32/int64, values not "
